@@ -66,11 +66,11 @@ theorem regInv_reach {P : Prog} {c0 c : Cfg} (h0 : Started c0) (hr : Reach P c0 
   refine reach_inv (regInv_init init hs q stdin) ?_ ?_ hr
   · intro c c' ih sf h d s hm
     rcases sf.code _ hm rfl with h1 | h1
-    · exact sf.handlers _ (ih h d s (List.mem_of_mem_tail h1))
-    · exact sf.handlers _ h1.2.1
+    · exact sf.handlers.subset (ih h d s (List.mem_of_mem_tail h1))
+    · exact sf.handlers.subset h1.2.1
   · intro c c' ih hc hk h d s hm
     rw [hc] at hm
-    exact hk.handlers _ (ih h d s hm)
+    exact hk.handlers.subset (ih h d s hm)
 
 theorem head_mem {c : Cfg} {i : Instr} (h : c.code.head? = some i) : i ∈ c.code := by
   cases hc : c.code with
